@@ -14,6 +14,7 @@ CONSTANTS
   DefaultsUntouched = TRUE
   OrderedIteration = TRUE
   SummaryStateless = TRUE
+  WeightsRebuilt = TRUE
 INVARIANT Functional
 INVARIANT SeedDerived
 CONSTRAINT ExportDone
